@@ -660,6 +660,71 @@ fn run_ed25519_trunc(inp: &[u8]) -> Result<(), String> {
     }
 }
 
+/// C13: the whole UX_COMP table against its definition (extra/mkuxcomp.sage), and a truncated-verification round trip whose
+/// search solution goes through each of its 16385 entries (rm = 32: nJ = 14, every entry is a legitimate match), both signs.
+/// Input: chunk(1: 256 consecutive table tags j) | par(1: low-order key, garbage pattern, baby-step offset)
+fn run_ed25519_uxcomp(inp: &[u8]) -> Result<(), String> {
+    use crrl::ed25519::{Point, PublicKey, Scalar};
+    if inp.len() != 2 { return Ok(()); }
+    let chunk = inp[0] as usize % 65;
+    let par = inp[1] as usize;
+    let tab = PublicKey::verif_ux_comp();
+    if chunk == 0 {
+        for k in 1..tab.len() { chk(tab[k - 1] < tab[k], || format!("UX_COMP is not strictly ascending at index {}: {:016x} then {:016x}", k, tab[k - 1], tab[k]))?; }
+        let mut seen = vec![false; 16385];
+        for (k, z) in tab.iter().enumerate() {
+            let t = (z & 0xFFFF) as usize;
+            chk(t <= 16384 && !seen[t], || format!("UX_COMP[{}] = {:016x}: tag {} out of range or repeated", k, z, t))?;
+            seen[t] = true;
+        }
+    }
+    let p = pow2(255) - bi(19);
+    let l = ed25519_L();
+    let step = Point::mulgen(&Scalar::decode_reduce(&int_to_le(&pow2(240), 32)));
+    let lo = chunk * 256;
+    let hi = (lo + 256).min(16385);
+    let mut t = step * (lo as u64);
+    for j in lo..hi {
+        let mut e = t.encode();
+        e[31] &= 0x7F;
+        let y = le_to_int(&e);
+        let u = if y == bi(1) { bi(0) } else { (bi(1) + &y) * modinv(&((&p + bi(1) - &y) % &p), &p) % &p };
+        let low48: u64 = (&u % pow2(48)).to_u64_digits().1.first().copied().unwrap_or(0);
+        let z = (low48 << 16) | (j as u64);
+        chk(tab.binary_search(&z).is_ok(), || format!("UX_COMP has no entry {:016x} = (u({}*2^240*B) mod 2^48) << 16 | {}", z, j, j))?;
+        t = t + step;
+    }
+    // round trips: S = s0 + 2^251 + (i +/- j*2^13) * 2^224, valid under a public key of low order for R = S*B + T
+    let low = ed25519_low_order();
+    let pk = PublicKey::decode(&low[par % low.len()]).ok_or("low-order public key refused by decode")?;
+    let tors = Point::decode(&low[(par >> 3) % low.len()]).unwrap();
+    let garbage = [0u32, u32::MAX, 0xA55A_C33C, 0x8000_0001][(par >> 6) % 4];
+    let msg = [inp[0], inp[1], b'u', b'x'];
+    let rm = 32usize;
+    for j in lo..hi {
+        for neg in [false, true] {
+            let i = bi(((j * 7 + par) % 5) as i64);
+            let ji = bi(j as i64) * pow2(13);
+            let s1 = if neg { &i - &ji } else { &i + &ji };
+            let s0 = bi((j as i64) * 0x1_0001 + 1);
+            let sv = &s0 + pow2(251) + &s1 * pow2(224);
+            if sv.sign() == Sign::Minus || sv >= l { continue; }
+            let ss = Scalar::decode_reduce(&int_to_le(&sv, 32));
+            let r = Point::mulgen(&ss) + tors;
+            let mut sig = [0u8; 64];
+            sig[..32].copy_from_slice(&r.encode());
+            sig[32..].copy_from_slice(&int_to_le(&sv, 32));
+            chk(pk.verify_raw(&sig, &msg), || format!("signature with chosen S rejected by the ordinary verifier (low-order key {}, S {})", hex(&pk.encode()), sv))?;
+            let mut tsig = sig;
+            overwrite_tail(&mut tsig, rm, garbage);
+            let got = pk.verify_trunc_raw(&tsig, rm, &msg);
+            chk(got == Some(sig), || format!("truncated verification (rm 32) returned {:?} instead of the original signature whose search solution is s1 = {} {} {}*2^13 (table tag {}); pk {} sig {} truncated {} msg {}",
+                got.map(|x| hex(&x)), i, if neg { "-" } else { "+" }, j, j, hex(&pk.encode()), hex(&sig), hex(&tsig), hex(&msg)))?;
+        }
+    }
+    Ok(())
+}
+
 fn sp_seed32() -> Vec<Vec<u8>> { vec![hex::decode("9d61b19deffd5a60ba844af492ec2cc44449c5697b326919703bac031cae7f60").unwrap()] }
 fn rnd_seed32(r: &mut Rng) -> Vec<u8> { rand_bytes(r, 32) }
 fn sp_ed_trunc_ctl() -> Vec<Vec<u8>> {
@@ -880,6 +945,10 @@ fn reg_trunc(v: &mut Vec<Case>) {
         describe: "verify_trunc_raw/ctx/ph: a valid signature whose last rm bits (8..=32) are overwritten is rebuilt exactly; any returned signature passes the ordinary verifier and extends the received prefix; altered message / prefix / length gives None. Input: seed(32) | ctl(12: mode%3, rm selector, garbage(4), variant%8, par, par32(4)) | msg",
         ops: vec![Op::Custom { len: Some(32), specials: sp_seed32, random: rnd_seed32 }, Op::Custom { len: Some(12), specials: sp_ed_trunc_ctl, random: rnd_ed_trunc_ctl }, Op::Custom { len: None, specials: sp_msg_small, random: rnd_msg }],
         run: Box::new(run_ed25519_trunc) });
+    v.push(Case { id: "ed25519_uxcomp".into(),
+        describe: "C13: UX_COMP == the sorted list of (u(j*2^240*B) mod 2^48) << 16 | j, j = 0..=16384 (strictly ascending, every tag once, every entry recomputed with plain point operations and big integers), and verify_trunc_raw (rm = 32) rebuilds a signature whose search solution is i +/- j*2^13 for every tag j. Input: chunk of 256 tags (1) | par (1)",
+        ops: vec![Op::Custom { len: Some(1), specials: || (0u8..65).map(|x| vec![x]).collect(), random: |r: &mut Rng| vec![r.below(65) as u8] }, Op::Custom { len: Some(1), specials: || vec![vec![0x5B]], random: |r: &mut Rng| vec![r.next() as u8] }],
+        run: Box::new(run_ed25519_uxcomp) });
     v.push(Case { id: "p256_trunc".into(),
         describe: "prepare_truncate == documented (range checks, low s, s little-endian); verify_trunc_hash on a prepared signature whose last rm bits are overwritten returns r || s' (big-endian); any returned signature passes verify_hash; altered hash / prefix / length gives None. Input: k(32) | s(32) | hash(32) | ctl(8: rm selector, garbage(4), variant%8, par, par2)",
         ops: vec![Op::Custom { len: Some(32), specials: sp_one32, random: rnd_p256_rs }, Op::Custom { len: Some(32), specials: sp_one32, random: rnd_p256_rs }, Op::Custom { len: Some(32), specials: sp_one32, random: rnd_hash32 }, Op::Custom { len: Some(8), specials: sp_p256_trunc_ctl, random: rnd_p256_trunc_ctl }],
